@@ -24,3 +24,19 @@ pub fn vf_easy_error() -> (r: Error) { unimplemented!() }
 /// easy_error::err_msg
 #[verifier::external_body]
 pub fn err_msg(s: &str) -> (r: Error) { unimplemented!() }
+
+/// easy_error::ResultExt::context: wraps the error, keeps the success value
+pub trait ResultExt<T> {
+    spec fn rx_ok(&self) -> Option<T>;
+    fn context(self, msg: &str) -> (r: Result<T, Error>)
+        ensures
+            r.is_ok() == self.rx_ok().is_some(),
+            r.is_ok() ==> r.unwrap() == self.rx_ok().unwrap();
+}
+impl<T, E> ResultExt<T> for Result<T, E> {
+    open spec fn rx_ok(&self) -> Option<T> {
+        match *self { Ok(v) => Some(v), Err(_) => None }
+    }
+    #[verifier::external_body]
+    fn context(self, msg: &str) -> (r: Result<T, Error>) { unimplemented!() }
+}
